@@ -59,6 +59,8 @@ def slot_params(ctx):
     fn = ctx.ast.fn(W, "write_info")
     parts = emissions(fn.body, recv_is_param0(fn))
     segs = split_structure(parts)
+    if [s[0] for s in segs][-1:] == ["flush"]:
+        segs = segs[:-1]
     out = {}
     if segs and len(segs) > 1 and segs[1][0] == "emits" and len(segs[1][1]) == len(F.COMMON_HEADER):
         for e, (fname, w, kind) in zip(segs[1][1], F.COMMON_HEADER):
@@ -92,6 +94,8 @@ def ob_write_info(ctx, res):
     parts = emissions(fn.body, recv_is_param0(fn))
     segs = split_structure(parts)
     shape = ["seek", "emits", "loop", "seek", "emits", "seek", "emits", "seek", "emits"]
+    if [s[0] for s in segs][-1:] == ["flush"]:
+        segs = segs[:-1]  # a final flush is C14-F1's concern
     if not expect_shape(res, fn, segs, shape, "write_info"):
         return
     # seek(Start(0)) first
@@ -498,6 +502,9 @@ def ob_cir_header_w(ctx, res):
             res.fail("cirHeader/endFileOffset", b[0].node, "endFileOffset must be the position taken before the index header is written")
             okb = False
     okalt = True
+    if len(alt.parts) not in (2, 3):
+        res.fail("cirHeader/bounds-arms", alt.node, "expected leaf-root / inner-root (and optionally empty-index) arms")
+        okalt = False
     for br in alt.parts:
         ems = flat_emits(br.parts)
         if not check_emit_seq(res, fn, ems, H[3:7], {}, "cirHeader.bounds[%s]" % br.label):
